@@ -514,7 +514,18 @@ func init() {
 			switch c.Index % 3 {
 			case 0:
 				w := map[string]int{"set": 40, "rm": 14, "save": 22, "rollback": 2, "reopen": 5, "load": 2, "delto": 7, "lfo": 3, "delfrom": 1, "redo": 2}
+				// half of the forward cases get extra writes whose key / value lengths sit on uvarint
+				// boundaries. Those writes are not part of the planned history, so these cases use only
+				// operations whose validity does not depend on what exactly was committed (no loads of
+				// older versions, no re-commits, no rollbacks to a version).
+				inject := c.Index%6 == 0
+				if inject {
+					w = map[string]int{"set": 40, "rm": 14, "save": 24, "rollback": 2, "delto": 7}
+				}
 				p := &v1x.GenParams{MinOps: 10, MaxOps: 45, W: w, MaxKeys: 12, InvalidPct: 2, Backends: []string{"mem"}, Initials: []int64{0, 0, 1, 5, 63, 64, 8150, 8191, 1048570}, BigValues: true}
+				if inject {
+					p.InvalidPct = 0
+				}
 				if c.Tier == "thorough" {
 					p.MaxOps = 100
 					p.MaxKeys = 30
@@ -534,7 +545,7 @@ func init() {
 				// keys and values whose lengths sit on the boundaries of the length prefix (uvarint)
 				boundary := []int{127, 128, 129, 255, 256, 16383, 16384}
 				for i, op := range pl.Ops {
-					if i%7 == 3 && (op.Kind == "set" || op.Kind == "save") {
+					if inject && i%5 == 3 && (op.Kind == "set" || op.Kind == "save") {
 						l := boundary[c.Rng.Intn(len(boundary))]
 						if c.Rng.Intn(2) == 0 {
 							e.Apply(v1x.Op{Kind: "set", K: []byte(fmt.Sprintf("len%05d", l)), V: bytes.Repeat([]byte{byte('a' + l%26)}, l)}, false)
